@@ -35,6 +35,7 @@ FLAGSETS = [
     dict(persistent=True, always_reconnect=False, reconnect_wait=2, addr=False),
     dict(persistent=False, always_reconnect=True, reconnect_wait=1, addr=True),
     dict(persistent=True, always_reconnect=False, reconnect_wait=2, addr=True, busy=True),
+    dict(persistent=True, always_reconnect=False, reconnect_wait=2, addr=True, caps=True),
 ]
 PEER = "peer1.verif.example"
 
@@ -65,6 +66,8 @@ class Case:
                             node={"cea_timeout": self.cea_timeout, "cer_timeout": 2, "dwa_timeout": 10 ** 6,
                                   "idle_timeout": 10 ** 6}))
         self.late_dwa = "dpr_late_dwa" in outcomes
+        # the peer may spell its identity with capitals in everything it sends (identities compare without case)
+        self.spelled = ".".join(x.capitalize() for x in PEER.split(".")) if flags.get("caps") else PEER
         self.h = self.w.h
         self.node = self.w.node
         self.W = flags["reconnect_wait"]
@@ -208,7 +211,7 @@ class Case:
         if not cer:
             self.witness("outbound.no_cer_sent", {})
             return None
-        p.send(M.cea(PEER, self.REALM, auth=[4], hbh=cer[-1].h.hbh, e2e=cer[-1].h.e2e))
+        p.send(M.cea(self.spelled, self.REALM, auth=[4], hbh=cer[-1].h.hbh, e2e=cer[-1].h.e2e))
         h.settle()
         self.new_connects()
         return p
@@ -241,7 +244,7 @@ class Case:
                     # to which the old disconnect reason does not apply
                     p = h.inbound(ip="10.1.0.1", port=50004)
                     h.settle()
-                    p.send(M.cer(PEER, self.REALM, auth=[4], hbh=1, e2e=4))
+                    p.send(M.cer(self.spelled, self.REALM, auth=[4], hbh=1, e2e=4))
                     h.settle()
                     fr = p.drain()
                     if not fr or fr[-1].result_code != 2001:
@@ -274,7 +277,7 @@ class Case:
                 outcome = "gone"
             p = h.inbound(ip="10.1.0.1", port=50001)
             h.settle()
-            p.send(M.cer(PEER, self.REALM, auth=[4], hbh=1, e2e=1))
+            p.send(M.cer(self.spelled, self.REALM, auth=[4], hbh=1, e2e=1))
             h.settle()
             p.drain()
             return self.finish_established(p, outcome)
@@ -300,7 +303,7 @@ class Case:
             p = s.peer
             p.drain()
             cer = [x for x in p.frames if x.h.code == 257]
-            p.send(M.cea(PEER, self.REALM, result=5010, hbh=cer[-1].h.hbh, e2e=cer[-1].h.e2e))
+            p.send(M.cea(self.spelled, self.REALM, result=5010, hbh=cer[-1].h.hbh, e2e=cer[-1].h.e2e))
             h.settle()
             self.new_connects()
             self.note_loss()
@@ -312,7 +315,7 @@ class Case:
             # connection is lost: the pending dial is still a self-initiated connection, so no second dial
             q = h.inbound(ip="10.1.0.1", port=50003)
             h.settle()
-            q.send(M.cer(PEER, self.REALM, auth=[4], hbh=1, e2e=3))
+            q.send(M.cer(self.spelled, self.REALM, auth=[4], hbh=1, e2e=3))
             h.settle()
             fr = q.drain()
             self.run.cov["pending_inbound_accepted"] = self.run.cov.get("pending_inbound_accepted", 0) + \
@@ -360,7 +363,7 @@ class Case:
             # the loss is noticed on the sending side: the node's write of a watchdog answer fails hard
             import errno
             p.node_sock.send_plan.append(("err", errno.EPIPE))
-            p.send(M.dwr(PEER, self.REALM, hbh=91, e2e=92))
+            p.send(M.dwr(self.spelled, self.REALM, hbh=91, e2e=92))
             h.settle()
             self.new_connects()
             self.note_loss()
@@ -376,7 +379,7 @@ class Case:
                     p.drain()
                     dwr = next((f for f in reversed(p.frames) if f.h.code == 280 and f.is_request), None)
             seen = len(p.frames)
-            p.send(M.dpr(PEER, self.REALM, hbh=77, e2e=78))
+            p.send(M.dpr(self.spelled, self.REALM, hbh=77, e2e=78))
             h.settle()
             p.drain()
             fr = [f for f in p.frames[seen:] if f.h.code == 282 and not f.is_request]
@@ -385,7 +388,7 @@ class Case:
             if outcome == "dpr_repeated":
                 # the peer repeats its DPR under new identifiers (its DPA got lost, say): every received DPR is answered
                 seen = len(p.frames)
-                p.send(M.dpr(PEER, self.REALM, hbh=79, e2e=80))
+                p.send(M.dpr(self.spelled, self.REALM, hbh=79, e2e=80))
                 h.settle()
                 p.drain()
                 fr = [f for f in p.frames[seen:] if f.h.code == 282 and not f.is_request]
@@ -396,7 +399,7 @@ class Case:
             from diameter.node.node import NotRoutable
             from diameter.message.commands import CreditControlRequest
             if dwr is not None:
-                p.send(M.dwa(PEER, self.REALM, hbh=dwr.h.hbh, e2e=dwr.h.e2e))
+                p.send(M.dwa(self.spelled, self.REALM, hbh=dwr.h.hbh, e2e=dwr.h.e2e))
                 h.settle()
                 self.run.cov["late_dwa_after_dpr"] = self.run.cov.get("late_dwa_after_dpr", 0) + 1
             m = CreditControlRequest()
@@ -420,7 +423,7 @@ class Case:
             # the same peer also connects inbound, completes a CER, then closes that second connection
             q = h.inbound(ip="10.1.0.1", port=50002)
             h.settle()
-            q.send(M.cer(PEER, self.REALM, auth=[4], hbh=1, e2e=2))
+            q.send(M.cer(self.spelled, self.REALM, auth=[4], hbh=1, e2e=2))
             h.settle()
             q.drain()
             self.tick_and_judge(1, "dup-open")
